@@ -10,7 +10,8 @@ import asyncio, random
 
 class Segmenter:
     """decides how many of the buffered bytes the next `data_received` call gets.
-    spec: ["whole"] | ["k", n] | ["rand", seed, maxlen] | ["cuts", [absolute offsets…]]"""
+    spec: ["whole"] | ["k", n] | ["rand", seed, maxlen] | ["cuts", [absolute offsets…]]
+          | ["bodycuts", [offsets counted from the end of the first header block…]]"""
 
     def __init__(self, spec):
         self.spec = list(spec) if spec else ["whole"]
@@ -21,8 +22,26 @@ class Segmenter:
             self.maxlen = self.spec[2] if len(self.spec) > 2 else 64
         elif self.kind == "cuts":
             self.cuts = sorted(set(int(c) for c in self.spec[1]))
+        elif self.kind == "bodycuts":
+            self.rel = sorted(set(int(c) for c in self.spec[1]))
+            self.hist = bytearray()   # bytes seen so far, until the first blank line is found
+            self.head_end = None
 
-    def take(self, avail):
+    def take(self, avail, buf=b""):
+        if self.kind == "bodycuts":
+            if self.head_end is None:
+                j = (bytes(self.hist) + bytes(buf)).find(b"\r\n\r\n")
+                if j >= 0:
+                    self.head_end = j + 4
+                    self.hist = None
+            if self.head_end is None:
+                n = avail
+                self.hist += bytes(buf[:n])
+            else:
+                nxt = [self.head_end + c for c in self.rel if self.head_end + c > self.pos]
+                n = min(avail, nxt[0] - self.pos) if nxt else avail
+            self.pos += n
+            return n
         if self.kind == "whole":
             n = avail
         elif self.kind == "k":
@@ -82,7 +101,7 @@ class PipeT(asyncio.Transport):
         self._pump_scheduled = False
         if self.closed or self.paused or not self.buf:
             return
-        n = self.seg.take(len(self.buf))
+        n = self.seg.take(len(self.buf), self.buf)
         d = bytes(self.buf[:n]); del self.buf[:n]
         self.deliveries += 1
         self.proto.data_received(d)
@@ -119,6 +138,9 @@ class PipeT(asyncio.Transport):
 
     def pause_reading(self):
         self.paused = True
+        self.pauses = getattr(self, "pauses", 0) + 1
+        # how many bytes of the stream had been delivered when the reader asked for the pause
+        self.pause_at = getattr(self, "pause_at", []) + [self.seg.pos]
 
     def resume_reading(self):
         self.paused = False
